@@ -1647,5 +1647,8 @@ def run(tier, args):
         "narrow integer arguments carry junk above their declared width (the ABI does not promise more); destinations are compared on the bytes of the destination type only; mixed-signedness widenings are not generated",
         "an error returned by update_func_frame/emit_args_assignment/Compiler::finalize is counted as 'rejected', never as a violation",
         "ASan/UBSan flavour: classification, a slice of workload C without execution, one interop pass; plain -O2 flavour: native execution",
+        "mutation self-test (quick tier, seed 1, scratch copies, 2026-09-27): SysV passed order rdi<->rsi swapped -> classify:sysv64:int:reg-gp-id + interop:sysv64:*:arg:int; "
+        "Win64 `stack_offset += 8` dropped for indirect vectors -> classify:win64:*:after-ind-stack; no-progress (kWorkPostponed) check removed from emit_args_assignment -> "
+        "shuffle:x64|x86:hang:emit-does-not-terminate; Int8->Int32 removed from the movsx list -> shuffle:x64|x86:sext:int:*:via-movzx; all four seen as keys absent from the unmutated run",
     ]
     return chk.finish()
